@@ -4,6 +4,7 @@ import (
 	"fmt"
 	"go/ast"
 	"go/token"
+	"go/types"
 	"regexp"
 	"sort"
 	"strings"
@@ -340,6 +341,77 @@ func runC03(c *core.Ctx) core.Meta {
 		}
 		if nShifts == 0 {
 			st2.Ob(true)
+		}
+	}
+
+	// ---------------- R03.5 carry / borrow predicates do not wrap ----------------
+	st5 := c.Rule("R03.5", "an ordered comparison that decides a carry or borrow (one operand is a sum or difference of operand values) in the handlers of carry-in instructions (addc / subb / subbrev, tied to their names through the decode table) is evaluated in 64 bits: in a 32-bit type `src1 + carry` wraps to 0 for src1 = 0xffffffff and the carry-out is lost", 6)
+	carryName := regexp.MustCompile(`(addc|subb|subbrev)`)
+	carryHandlers := map[string]string{}
+	for _, h := range handlers {
+		for _, n := range h.insts {
+			if carryName.MatchString(n) {
+				carryHandlers[h.alu.pkg+"."+h.name] = n
+			}
+		}
+	}
+	for _, a := range alus {
+		for _, fn := range c.SrcFuncs(a.pkg) {
+			if fn.Signature.Recv() == nil || !strings.HasPrefix(fn.Name(), "run") {
+				continue
+			}
+			if _, isCarry := carryHandlers[a.pkg+"."+fn.Name()]; !isCarry {
+				continue
+			}
+			for _, b := range fn.Blocks {
+				for _, in := range b.Instrs {
+					cmp, ok := in.(*ssa.BinOp)
+					if !ok {
+						continue
+					}
+					switch cmp.Op {
+					case token.LSS, token.GTR, token.LEQ, token.GEQ:
+					default:
+						continue
+					}
+					for _, opnd := range []ssa.Value{cmp.X, cmp.Y} {
+						sum, ok := opnd.(*ssa.BinOp)
+						if !ok || sum.Op != token.ADD {
+							continue
+						}
+						// only sums of data values (not loop counters / constants-only)
+						if _, isC := core.ConstInt(sum.Y); isC {
+							if _, isC2 := core.ConstInt(sum.X); isC2 {
+								continue
+							}
+						}
+						if ivOf(sum.X) != nil || ivOf(sum.Y) != nil {
+							continue
+						}
+						if !dependsOn(sum, func(v ssa.Value) bool {
+							if in2, ok := v.(ssa.Instruction); ok {
+								name, _ := stateMethod(in2)
+								return name == "ReadOperand" || name == "VCC" || name == "SCC"
+							}
+							return false
+						}, map[ssa.Value]bool{}) {
+							continue
+						}
+						bt, isBasic := sum.Type().Underlying().(*types.Basic)
+						if !isBasic || bt.Info()&types.IsInteger == 0 {
+							continue
+						}
+						st5.Instances++
+						wide := bt.Kind() == types.Uint64 || bt.Kind() == types.Int64 || bt.Kind() == types.Uint || bt.Kind() == types.Int
+						st5.Ob(wide)
+						if wide {
+							st5.Sample("%s: %s compared in %s", core.FuncName(fn), short(prov.Of(sum)), bt.Name())
+						} else {
+							c.ReportAt("R03.5", fn, cmp.Pos(), "wrapping-sum-compare", fmt.Sprintf("the carry/borrow predicate compares the %s sum %s, which wraps around for operand 0x%s…: the condition code is wrong for the extreme operand (the sibling handlers evaluate it in 64 bits)", bt.Name(), short(prov.Of(sum)), "ff"))
+						}
+					}
+				}
+			}
 		}
 	}
 
